@@ -16,7 +16,7 @@ func init() {
 	register(&obs.Monitor{
 		ID:    "C16",
 		Level: "exploration",
-		Rule: "one interval set per case: 1..12 feature pairs on 1..3 contigs built from nested/abutting/chained/duplicated/random intervals; each set is piled (overlap slack 0) in >=4 insertion orders " +
+		Rule: "one interval set per case: 1..12 feature pairs on 1..3 contigs built from nested/abutting/chained/duplicated/random intervals (1 pair in 10 pairs an interval with itself; a quarter of the cases derive feature IDs from the coordinates only); each set is piled (overlap slack 0) in >=4 insertion orders " +
 			"(all permutations for <=5 pairs in thorough), duplicates re-added in both orientations, Piles called with nil/parity/none/location-reading filters (the last also as the first call on a piler) and repeated; oracle = union-find under closed-interval overlap. " +
 			"Non-trivial = some pile holds >=2 features and there are >=2 piles; distinct = sorted interval set",
 		Batches: func(t string) int {
